@@ -144,11 +144,13 @@ func rollbackHeap() {
 		undoLog[i]()
 	}
 	undoLog = undoLog[:0]
+	mapWriteLog = mapWriteLog[:0]
 }
 
 func commitHeap() {
 	storeLog = storeLog[:0]
 	undoLog = undoLog[:0]
+	mapWriteLog = mapWriteLog[:0]
 }
 
 // cloneAgg copies struct and array values (the interpreter represents them as Go slices, so a shallow copy
